@@ -58,6 +58,7 @@ type Task struct {
 	// Label is free for worlds: what library call the task is inside (for stuck reports).
 	Label      string
 	awaitStuck bool
+	awaitIdle  bool
 	cond       func() bool
 }
 
@@ -294,6 +295,20 @@ func (s *Sim) loop() {
 			return
 		}
 		if len(ready) == 0 {
+			// WaitIdle waiters run when nobody else can (before simulated time moves on).
+			wokeIdle := false
+			s.mu.Lock()
+			for _, t := range s.tasks {
+				if t.state == stParked && t.awaitIdle {
+					t.awaitIdle = false
+					t.state = stReady
+					wokeIdle = true
+				}
+			}
+			s.mu.Unlock()
+			if wokeIdle {
+				continue
+			}
 			// Everyone is blocked. Let simulated time move to the next timer; if that is our own
 			// horizon timer nothing else can ever happen.
 			horizon.Reset(s.cfg.Horizon)
@@ -591,6 +606,19 @@ func (t *Task) BlockedInOp() bool {
 	s.mu.Lock()
 	defer s.mu.Unlock()
 	return t.state == stBlocked
+}
+
+// WaitIdle parks the calling task until no other task is ready at the current simulated instant
+// (everything else is blocked, asleep or finished); simulated time does not move.
+func WaitIdle(site string) {
+	s := must()
+	t := s.self()
+	t.site = site
+	s.mu.Lock()
+	t.state = stParked
+	t.awaitIdle = true
+	s.mu.Unlock()
+	t.park()
 }
 
 // Sleep lets simulated time pass for the calling task.
